@@ -251,6 +251,7 @@ fn spawn_worker(scratch: &str) -> Worker {
 }
 
 pub type Job = (usize, usize, usize, usize);
+static HANGS: std::sync::atomic::AtomicUsize = std::sync::atomic::AtomicUsize::new(0);
 
 /// outcome per job: (o, detail) with o in ok | err | panic | hang | died | na
 pub fn run_jobs(jobs: &[Job], out_dir: &str, timeout_s: u64) -> Vec<(String, String)> {
@@ -265,6 +266,11 @@ pub fn run_jobs(jobs: &[Job], out_dir: &str, timeout_s: u64) -> Vec<(String, Str
                 let mut res = vec![];
                 let mut w = spawn_worker(&scratch);
                 for (i, j) in chunk {
+                    // a hang costs a full watchdog period: after a dozen of them the point is made
+                    if HANGS.load(std::sync::atomic::Ordering::Relaxed) >= 12 {
+                        res.push((i, ("na".to_string(), "skipped after 12 hangs".to_string())));
+                        continue;
+                    }
                     let sent = writeln!(w.tx, "{} {} {} {}", j.0, j.1, j.2, j.3).is_ok();
                     let r = if sent { w.rx.recv_timeout(Duration::from_secs(timeout_s)) } else { Err(mpsc::RecvTimeoutError::Disconnected) };
                     match r {
@@ -274,6 +280,9 @@ pub fn run_jobs(jobs: &[Job], out_dir: &str, timeout_s: u64) -> Vec<(String, Str
                         }
                         Err(e) => {
                             let what = if matches!(e, mpsc::RecvTimeoutError::Timeout) { "hang" } else { "died" };
+                            if what == "hang" {
+                                HANGS.fetch_add(1, std::sync::atomic::Ordering::Relaxed);
+                            }
                             let _ = w.child.kill();
                             let _ = w.child.wait();
                             res.push((i, (what.to_string(), String::new())));
@@ -413,7 +422,8 @@ pub fn run(a: &Args) -> Batch {
     let small: Vec<usize> = (0..fs.len()).filter(|&i| fs[i].kind <= 1 && fs[i].text.len() < 120_000).collect();
     let ncoq = if a.thorough { 600 } else { 96 };
     let mut guard = 0;
-    while cases.len() < ncoq && guard < ncoq * 40 && !small.is_empty() {
+    let mut parser_hangs = 0usize;
+    while cases.len() < ncoq && guard < ncoq * 40 && !small.is_empty() && parser_hangs < 3 {
         guard += 1;
         let fi = *r.pick(&small);
         let l = r.below(nlines[fi].max(1));
@@ -426,7 +436,22 @@ pub fn run(a: &Args) -> Batch {
                 // the edit fell outside the BDL part of the project file
                 continue;
             }
-            let (it, cls, _) = p18::impl_term(&bdl);
+            // the block parser runs in a thread of its own: a text it never returns from is a finding, not a stall
+            let (txc, rxc) = mpsc::channel();
+            let b2 = bdl.clone();
+            std::thread::spawn(move || {
+                let r = p18::impl_term(&b2);
+                let _ = txc.send((r.0, r.1));
+            });
+            let (it, cls) = match rxc.recv_timeout(Duration::from_secs(20)) {
+                Ok(x) => x,
+                Err(_) => {
+                    parser_hangs += 1;
+                    impl_findings.push(json!({"kind": "block_parser_hangs", "site": "hulc::bdl::build_blocks did not return in 20 s", "file": fs[fi].name, "line": l + 1, "edit": EDITS[e], "job": [fi, l, e, v],
+                        "classes": ["crash_site:hang in build_blocks"]}));
+                    ("IPanic".to_string(), 2)
+                }
+            };
             cases.push(Case {
                 term: format!("mkC18 {}\n ({})", p18::clines(&bdl), it),
                 post: String::new(),
